@@ -46,6 +46,8 @@ var scenarios = map[string]scenario{
 	"flow-renew2-migrate": {run: flowRenew2Migrate},
 	"flow-debt-release":   {run: flowDebtRelease},
 	"flow-short-renewal":  {run: flowShortRenewal},
+	"flow-renew-migrate-expire": {run: flowRenewMigrateExpire},
+	"flow-silent-super":   {run: flowSilentSuper, genesis: func(g *GenesisSpec) { g.NodeParams.VstorageThreshold = 5000000 }},
 	"flow-did-self-join":  {run: flowDidSelfJoin},
 	"flow-unnamed-rollback": {run: flowUnnamedRollback},
 	"flow-renew-many-poor": {run: flowRenewManyPoor},
@@ -1338,4 +1340,85 @@ func flowDidSelfJoin(r *Recorder, accts []*Account) {
 	more(stranger, third, "did:key:acc-third") // the new member adds a third
 	r.UpdatePaymentAddress(stranger, &didtypes.MsgUpdatePaymentAddress{Creator: stranger.Bech(), AccountId: accountIdOf(stranger), Did: did})
 	r.EndBlock()
+}
+
+// A renewed shard is handed over to another provider before its first period ends; the chain then runs across both
+// scheduled ends: at the first the shard rolls over to the renewal, at the second it is released -- collateral and
+// capacity back, income stopped, order and model gone.
+func flowRenewMigrateExpire(r *Recorder, accts []*Account) {
+	m := newMiniWorld(r, accts, 2)
+	o := m.owners[0]
+	r.BeginBlock()
+	m.store(o, dataA, dataA, 1, 1000000, 1, 3600, 100)
+	m.completeAll()
+	end1 := r.c.Height + 3600
+	r.EndBlock()
+	r.BeginBlock()
+	m.renew(o, dataA, 3600)
+	r.EndBlock()
+	r.BeginBlock()
+	for _, sh := range m.w.ctxShards() {
+		if sp := m.w.acctByAddr(sh.Sp); sp != nil && sh.Status == 2 {
+			r.Migrate(sp, sp.Bech(), []string{dataA})
+			break
+		}
+	}
+	r.EndBlock()
+	r.BeginBlock()
+	m.completeAll()
+	r.EndBlock()
+	r.Blocks(int(end1 - r.c.Height + 3))
+	r.BeginBlock()
+	for _, p := range m.providers {
+		r.ClaimReward(p)
+	}
+	r.EndBlock()
+	r.Blocks(int(end1 + 3600 - r.c.Height + 6))
+	r.BeginBlock()
+	for _, p := range m.providers {
+		r.ClaimReward(p)
+	}
+	r.EndBlock()
+	r.Blocks(2)
+}
+
+// A super node (first pick of every order) that stays silent: its stalled shard must go to the other provider at the
+// first timeout check, and an order nobody stores must be given up and refunded after ten timeouts.
+func flowSilentSuper(r *Recorder, accts []*Account) {
+	c := r.c
+	val := c.ValAddrs[0]
+	w := &saoWorld{rng: rand.New(rand.NewSource(7)), r: r, c: c, grants: map[string]*owner{}}
+	gw, sup, n := accts[0], accts[1], accts[2]
+	r.BeginBlock()
+	r.NodeCreate(gw)
+	r.NodeReset(gw, "", 3, "", nil)
+	r.NodeCreate(sup)
+	r.AddVstorage(sup, 6000000)
+	r.Delegate(sup, val, 200000) // 200000 of 1200000 shares: 16.7 %
+	r.NodeReset(sup, "", 15, val.String(), nil)
+	r.NodeCreate(n)
+	r.NodeReset(n, "", 13, "", nil)
+	r.AddVstorage(n, 6000000)
+	o := w.mkKeyOwner(accts[4], "silent")
+	w.gateways = []*Account{gw}
+	r.EndBlockStaking()
+	store := func(data string) {
+		pr := w.proposal(o, gw, data, data, 1, 1000000, 1, 3600, 5)
+		r.Store(gw, &saotypes.MsgStore{Creator: gw.Bech(), Proposal: pr, JwsSignature: SignJWS(&pr, o.key, o.kid), Provider: gw.Bech()})
+	}
+	r.BeginBlock()
+	store(dataA)
+	r.EndBlock()
+	r.Blocks(7) // the first timeout check hands the shard to the other provider
+	r.BeginBlock()
+	for _, sh := range w.ctxShards() {
+		if sh.Status == 0 && sh.Sp == n.Bech() {
+			r.Complete(n, n.Bech(), sh.OrderId, goodCid2, sh.Size_)
+		}
+	}
+	r.EndBlock()
+	r.BeginBlock()
+	store("bbbbbbbb-data-4000-8000-00000000000b") // nobody stores this one
+	r.EndBlock()
+	r.Blocks(70)
 }
